@@ -47,3 +47,21 @@ pub mod rng_hooks {
 
 /// `HeContext::create_random_generator` (crate-private)
 pub fn create_random_generator(context: &crate::HeContext) -> crate::util::BlakeRNG { context.create_random_generator() }
+
+/// Hook H4: yield points for the concurrency check (C17).
+///
+/// `yield_at(id)` is called by the library at synchronization-relevant points at which the calling thread
+/// holds NO lock.  It does nothing unless a scheduler has been installed with `install` (once per process).
+/// Ids: 0 before the read phase, 1 after the read lock is dropped / before the local computation,
+/// 2 before the write phase, 3 after the write lock is dropped (all in `compute_secret_key_array` of
+/// `Decryptor` and `KeyGenerator`), 4 before the use-phase read lock (`dot_product_ct_sk_array`,
+/// `generate_rlk`); 10 before the check phase, 11 before the generate-and-store phase, 12 before the use
+/// phase of `GaloisTool::apply_ntt`.
+pub mod sched {
+    use std::sync::OnceLock;
+    static HOOK: OnceLock<Box<dyn Fn(u32) + Send + Sync>> = OnceLock::new();
+    /// Install the process-wide scheduler callback; returns false if one was already installed.
+    pub fn install(f: Box<dyn Fn(u32) + Send + Sync>) -> bool { HOOK.set(f).is_ok() }
+    #[inline]
+    pub fn yield_at(id: u32) { if let Some(f) = HOOK.get() { f(id) } }
+}
